@@ -45,7 +45,10 @@ def delegation_cases(draw, force_kind=None, sign_for_asked=False):
     elif ask_kind == "other":
         asked = draw(st.sampled_from([r for r in roles if r != aim] or roles))
     elif ask_kind == "nearmiss":
-        cands = [aim.upper(), aim + " ", aim + ".json", aim[:-1], " " + aim, aim.capitalize(), aim + "\x00"]
+        import unicodedata
+        cands = [aim.upper(), aim + " ", aim + ".json", aim[:-1], " " + aim, aim.capitalize(), aim + "\x00",
+                 unicodedata.normalize("NFD", aim), unicodedata.normalize("NFC", aim), unicodedata.normalize("NFKC", aim)]
+        cands = [c for c in cands if c != aim]
         asked = draw(st.sampled_from([c for c in cands if c not in dels] or ["nobody"]))
     else:
         asked = draw(st.sampled_from([r for r in GM.ROLE_NAMES + ["nobody"] if r not in dels]))
@@ -84,6 +87,10 @@ def delegation_cases(draw, force_kind=None, sign_for_asked=False):
         signers = GM.subset_by_mask(idx, draw(st.integers(0, 2 ** n - 1)))
     U = GM.wrap(payload)
     B = canon(payload)
+    # entries under authorized keys that do not count (malformed value, stale signature), filed BEFORE the real ones
+    for i in [j for j in aim_idx if j not in signers][:draw(st.integers(0, 2))]:
+        U["signatures"][pubs[i]] = draw(st.sampled_from([None, "ab" * 64, {"signature": "abcd"}, 7, [],
+                                                         {"signature": keys.sign_raw(seeds[i], b"an older version").hex()}]))
     for i in signers:
         wrong_mode = draw(st.integers(0, 9)) == 0
         U["signatures"][pubs[i]] = GE.make_entry(draw, seeds[i], B, gpg != wrong_mode)
